@@ -1,6 +1,6 @@
 (* C11 - Selecting outputs / supplying intermediates keeps values, runs only needed work.
    Only statements here; every proof is `exact <lemma>` into Proofs/SubPipeFacts.v / Proofs/C11Capstone.v.
-   SubPipe.subpipeline = model of Pipeline.subpipeline (repaired code: fixes 808996e, 5096f67, 92d2388, f1919c8),
+   SubPipe.subpipeline = model of Pipeline.subpipeline (repaired code: fixes 808996e, 5096f67, 329d394, 2bb0f4e, b974ee5),
    which prepare_run applies for map(output_names=S) / map(auto_subpipeline=True); Pipe.eval / Pipe.needed_top =
    specification of C02; kw = the provided names I with their values.
    STATUS: for the repaired code (the kept set is the set of functions the outputs depend on, cut at the provided
@@ -8,8 +8,8 @@
    rejection of uncomputable requests, acceptance of computable requests (by subpipeline and by map), "map calls
    exactly the needed functions once".  The acceptance theorem has ONE guard, `dead_defaults_agree`; where it fails the code refuses a
    computable request (witness C11_dead_defaults_refused, known finding c11-inconsistent-dead-defaults).
-   The map-level acceptance has a second guard (no provided name is an output of a needed function; witness
-   C11_map_rejects_supplied_output_of_kept_function, the other known finding).
+   The map-level acceptance has no further guard since the repair b974ee5 of _validate_complete_inputs (witness
+   C11_map_accepts_supplied_output_of_kept_function).
    The proofs rest on the completeness of Graph.ancestors and of Kahn layering (Proofs/GraphFacts.v). *)
 From Verif Require Import Base.Prelude Base.StrOrd Base.Graph Model.Pipe Model.SubPipe Corr.Run_C11
                           Proofs.GraphFacts Proofs.PipeFacts Proofs.SubPipeFacts Proofs.C11Capstone.
@@ -128,29 +128,34 @@ Proof. exact map_calls_exactly_needed. Qed.
 Print Assumptions C11_calls_exactly_needed.
 
 (* ACCEPTANCE at the level of Pipeline.map: a computable request map(inputs, output_names=S [, auto_subpipeline])
-   is accepted and runs to completion (user functions that do not raise), outside the two known-finding regions:
-   `dead_defaults_agree` (c11-inconsistent-dead-defaults) and "no provided name is an output of a needed function"
-   (c11-map-rejects-supplied-output-of-kept-function); every provided name must be read by a needed function
-   (otherwise _validate_complete_inputs rejects it as an extra input, which the property allows) *)
+   is accepted and runs to completion (user functions that do not raise), outside the ONE known-finding region
+   `dead_defaults_agree` (c11-inconsistent-dead-defaults).  No requested output is itself provided, and every provided
+   name must be read by a needed function (otherwise _validate_complete_inputs rejects it as an extra input, which
+   the property allows).  The former second guard "no provided name is an output of a needed function" is gone
+   (repair b974ee5: one output of a kept multi-output function may be provided) *)
 Theorem C11_map_computable_accepted : forall body pick p inputs Sq auto,
   wf_pipeline p -> (forall f a, exists r, body f a = Ok r) ->
   (forall o, In o Sq -> is_output p o = true /\ sufficient p inputs o) ->
   dead_defaults_agree p inputs Sq ->
   (forall k, In k (akeys inputs) ->
      exists o f, In o Sq /\ In f (needed_top p inputs o) /\ In k (pnames f) /\ aget (bound f) k = None) ->
-  (forall k, In k (akeys inputs) -> forall o f, In o Sq -> In f (needed_top p inputs o) -> ~ In k (outs f)) ->
+  (forall o, In o Sq -> ~ In o (akeys inputs)) ->
   exists store lg, map_run body pick p inputs (Some Sq) auto = Ok (store, lg).
 Proof. exact map_computable_accepted. Qed.
 Print Assumptions C11_map_computable_accepted.
 
-(* the second guard cannot be dropped: f(x) -> (a, c); h(a, c) -> d; inputs {x, a}; S = {d} *)
-Theorem C11_map_rejects_supplied_output_of_kept_function :
+(* the former refusal f(x) -> (a, c); h(a, c) -> d; inputs {x, a}; S = {d}: accepted, f runs because c is needed, h
+   receives the PROVIDED a; a plain map still rejects a provided output name *)
+Theorem C11_map_accepts_supplied_output_of_kept_function :
   wf_pipelineb w_k2 = true /\ computableb w_k2 [s "x"; s "a"] [s "d"] = true
-  /\ all_readb w_k2 [s "x"; s "a"] [s "d"] = true
   /\ subpipeline w_k2 [s "x"; s "a"] (Some [s "d"]) = Ok w_k2
-  /\ map_run Sym.body Sym.pick w_k2 [(s "x", s "1"); (s "a", s "A")] (Some [s "d"]) false = Err ValueError.
+  /\ option_map (fun r => (aget (fst r) (s "d"), map fst (snd r)))
+       (match map_run Sym.body Sym.pick w_k2 [(s "x", s "1"); (s "a", s "A")] (Some [s "d"]) false with
+        | Ok r => Some r | Err _ => None end)
+     = Some (Some (s "h(a=A,c=out(c;f(x=1)))"), [s "f"; s "h"])
+  /\ map_run Sym.body Sym.pick w_k2 [(s "x", s "1"); (s "a", s "A"); (s "d", s "D")] None false = Err ValueError.
 Proof. exact k2_witness. Qed.
-Print Assumptions C11_map_rejects_supplied_output_of_kept_function.
+Print Assumptions C11_map_accepts_supplied_output_of_kept_function.
 
 (* CAPSTONE for the case kind CSub: outside the one remaining known-finding region the executable statement of
    the correspondence check holds of the model's observation, for every case *)
